@@ -152,6 +152,7 @@ static int pick_other(int me) {
 static void hand_over(int me, int next, uintptr_t site) {
 	uint64_t rec[2] = { (uint64_t)next, site >= lib_lo && site < lib_hi ? (uint64_t)(site - lib_lo) : 0 };
 	g_thr.schedule_hash = fnv1a(rec, sizeof rec, g_thr.schedule_hash);
+	if (g_thr.trace.size() < 4000) { TrackerScope ts; g_thr.trace.emplace_back(next, (uint32_t)rec[1]); }
 	g_thr.switches++;
 	if (rec[1]) {
 		Dl_info di;
@@ -424,4 +425,5 @@ extern "C" {
 	}
 }
 uint64_t thr_shadow_overflow() { return shadow_overflow; }
+std::string thr_symbol_off(uint32_t off) { return off ? thr_symbol(lib_lo + off) : std::string("-"); }
 #endif
